@@ -1,6 +1,7 @@
 package fx
 
 import (
+	"encoding/base64"
 	"encoding/json"
 	"fmt"
 	"math/big"
@@ -171,7 +172,8 @@ func (b TxB) ModifyAsset(from Key, code common.Hash, update types.Profile, exp u
 }
 
 func (b TxB) TransferAssetRaw(from Key, to common.Address, id common.Hash, amount string, input []byte, gas uint64, exp uint64) *types.Transaction {
-	data := []byte(fmt.Sprintf(`{"assetId":"%s","transferAmount":%s,"input":"%s"}`, id.Hex(), amount, common.ToHex(input)))
+	// Input is a plain []byte field: encoding/json expects base64
+	data := []byte(fmt.Sprintf(`{"assetId":"%s","transferAmount":%s,"input":"%s"}`, id.Hex(), amount, base64.StdEncoding.EncodeToString(input)))
 	return Sign(b.raw(params.TransferAssetTx, from.Addr, &to, nil, gas, data, exp), from)
 }
 
